@@ -3,8 +3,11 @@ package harness
 // C13 - malformed or hostile blocks produce errors, never panics or unbounded work.
 
 import (
+	"context"
 	"fmt"
 	"github.com/ipfs/go-unixfsnode"
+	"github.com/ipfs/go-unixfsnode/file"
+	"github.com/ipfs/go-unixfsnode/hamt"
 	"io"
 	"sort"
 	"testing"
@@ -150,7 +153,7 @@ func c13Run(m *mnode, extraKeys ...string) (xs exerciseStats, panicked any, stac
 	xs.byteBudget = payload + 1<<20
 	budget := 200 * nodes
 	keysToTry := append([]string{"", "a", "0a", "x", "abc", "00", "inner", "Links"}, extraKeys...)
-	for _, reifier := range []string{"Reify", "unixfs", "unixfs-preload", "Load+NodeReifier"} {
+	for _, reifier := range []string{"Reify", "unixfs", "unixfs-preload", "Load+NodeReifier", "file.NewUnixFSFile", "hamt.AttemptHAMTShardFromNode"} {
 		st.ResetLogs()
 		st.LoadBudget = budget
 		if reifier == "Load+NodeReifier" {
@@ -165,7 +168,16 @@ func c13Run(m *mnode, extraKeys ...string) (xs exerciseStats, panicked any, stac
 				return
 			}
 			var rn datamodel.Node
-			if reifier == "Load+NodeReifier" {
+			if reifier == "file.NewUnixFSFile" {
+				// the package constructors called directly on whatever block there is (no type dispatch in front of them)
+				var f file.LargeBytesNode
+				f, e = file.NewUnixFSFile(context.Background(), pn, ls)
+				if e == nil && f != nil {
+					rn = f
+				}
+			} else if reifier == "hamt.AttemptHAMTShardFromNode" {
+				rn, e = hamt.AttemptHAMTShardFromNode(context.Background(), pn, ls)
+			} else if reifier == "Load+NodeReifier" {
 				ls2 := *ls
 				ls2.NodeReifier = unixfsnode.Reify
 				rn, e = ls2.Load(ipld.LinkContext{}, cidLink(root), protoForCid(root))
@@ -696,4 +708,20 @@ func keys0(m map[string]bool) []string {
 	}
 	sort.Strings(out)
 	return out
+}
+
+// F15 (fixed): through a link system that reifies what it loads, a file's child that is a DIRECTORY with an entry named
+// "Links" reached the file reader, which took that entry for the protobuf link list.
+func TestC13_R_F15_DirectoryChildNamedLinks(t *testing.T) {
+	for _, entry := range []string{"Links", "Data", "x"} {
+		for _, withBS := range []bool{true, false} {
+			leaf := &mnode{IsRaw: true, Raw: []byte("ab")}
+			dir := &mnode{HasData: true, UFS: &ufsFields{Type: 1}, Links: []mlink{{Name: strp(entry), Tsize: i64p(2), Child: leaf}}}
+			root := &mnode{HasData: true, UFS: &ufsFields{Type: 2, FileSize: u64p(4)}, Links: []mlink{{Tsize: i64p(2), Child: dir}, {Tsize: i64p(2), Child: leaf}}}
+			if withBS {
+				root.UFS.BlockSizes = []uint64{2, 2}
+			}
+			c13MustSurvive(t, fmt.Sprintf("file with a directory child holding an entry %q (blocksizes=%v)", entry, withBS), root)
+		}
+	}
 }
